@@ -77,10 +77,21 @@ def truncate_leaf(model, info, art):
 
 
 def truncate_container(model, info, art):
+    import types
     kind = info["kind"]
-    data = {"a": 2 ** 60, "b": [1.5, -2 ** 70]} if kind == "mapping" else [2 ** 60, {"c": float("inf")}]
-    if kind == "ndarray":
-        data = np.array([2 ** 60, 5])
+    d = {"a": 2 ** 60, "b": [1.5, -2 ** 70], "c": "text"}
+    if kind in ("mapping", "dict"):
+        data = d
+    elif kind == "mapping-not-dict":
+        data = types.MappingProxyType(d)
+    elif kind == "tuple":
+        data = (2 ** 60, {"c": float("inf")}, "text")
+    elif kind == "ndarray":
+        dk = info.get("dtype", "i")
+        data = {"i": np.array([2 ** 60, 5]), "u": np.array([2 ** 60, 5], dtype=np.uint64), "f": np.array([1e300, float("inf")]),
+                "O": np.array([2 ** 70, 1, None], dtype=object), "U": np.array(["a", "b"]), "b": np.array([True, False])}[dk]
+    else:
+        data = [2 ** 60, {"c": float("inf")}, "text"]
     out = truncate_json_overflow(data)
     flat = []
 
@@ -94,5 +105,10 @@ def truncate_container(model, info, art):
         else:
             flat.append(o)
     walk(out)
-    ok = all(-LIM <= x <= LIM for x in flat)
+    ok = all(-LIM <= x <= LIM for x in flat if isinstance(x, (int, float, np.number)) and not isinstance(x, (bool, np.bool_)))
+    if kind in ("mapping", "dict", "mapping-not-dict"):
+        ok = ok and isinstance(out, dict) and list(out) == list(data)
+    else:
+        ok = ok and isinstance(out, list) and len(out) == len(data)
     return ("contradicted" if ok else "confirmed"), f"{data!r} -> {out!r}"
+
